@@ -25,6 +25,15 @@
 //!              bit-identical to the canonical constructor; one params object fitted on A, B, A again; one
 //!              fitted object applied to A, B (array / dataset / dataset-view / clone), A again: no state
 //!              may leak between calls;
+//!   wide       feature counts 4, 5, 6, 7, 9 (n = p+3, 4 with a constant column and a zero row, 1, 2) x the five
+//!              record layouts (standard, col_major, transposed_view, reversed_rows_view, reversed_cols_view) and
+//!              the three owned front-sliced layouts (slice_move by rows / columns / both: non-zero offset
+//!              into a larger allocation filled with poison);
+//!   dataset:core  p in {1,2,4,5,6,7,9}, a full-rank and a one-row matrix x 1-D targets {standard, reversed view,
+//!              strided view, reversed owned} / 2-D targets {standard, column-major, reversed-row view,
+//!              transposed view} x weights {none, standard, reversed, strided} x owned / view records x
+//!              DatasetBase::new / From<(records, targets)> x 3 record layouts: the built dataset and the
+//!              transformed dataset must publish exactly the logical targets, weights and names;
 //!   long       1025 and 4097 rows x 2 columns cycling through the alphabet, standard and column-major:
 //!              all oracles, row-wise map on a handful of rows.
 //! All of it in f32 and f64. Oracle = plain f64 recomputation (run.rs), no linfa code.
@@ -40,7 +49,7 @@ use std::sync::Mutex;
 const ALPHABET: [f64; 5] = [0.0, 1.0, -2.0, 1001.0, 1e-3];
 const FLOATS: [&str; 2] = ["f64", "f32"];
 /// non-standard memory layouts of the record matrices (see run::arr_l)
-const LAYOUTS: [&str; 3] = ["col_major", "transposed_view", "reversed_rows_view"];
+const LAYOUTS: [&str; 7] = ["col_major", "transposed_view", "reversed_rows_view", "reversed_cols_view", "front_rows_sliced", "front_cols_sliced", "front_both_sliced"];
 /// extreme-magnitude alphabets: subnormals, the smallest normal, a value whose square is subnormal,
 /// ordinary values and values next to the top of the range — per float type
 const EXTREME_F64: [f64; 9] = [0.0, 1e-310, -2e-310, 2.2250738585072014e-308, 1e-160, 1.0, -1.0, 1e300, -1e300];
@@ -189,6 +198,22 @@ fn tiny_family() -> Vec<(usize, Mat)> {
     out
 }
 
+/// Deterministic n x p matrix for the wider feature counts (4..9). variant 1: column 1 constant, row 0 all zero.
+fn wide(n: usize, p: usize, variant: usize) -> Mat {
+    (0..n)
+        .map(|i| {
+            (0..p)
+                .map(|j| {
+                    if variant == 1 && (i == 0 || j == 1) {
+                        return if i == 0 { 0.0 } else { 5.0 };
+                    }
+                    ((i * (j + 2) + j * j + i * i * (j + 1) + variant * 3) % 7) as f64 - 2.0 + 10.0 * en::jitter(i + 3 * variant, j)
+                })
+                .collect()
+        })
+        .collect()
+}
+
 fn dataset_matrices(p: usize) -> Vec<(Mat, bool)> {
     // (matrix, well-conditioned full rank => whiteners are run too)
     match p {
@@ -227,6 +252,7 @@ fn main() {
          (all multisets of 0..3 / 0..4 of 5 other rows, one 4-row matrix); norm = norm scalers on every pool matrix; whiten = catalogue (2 base designs x n in {6,8,12} x 3^p column images x 3 global scales); \
          dataset = 2 matrices per p x 32 dataset forms x 4 memory layouts; layout = training pool (multisets of 2..3 rows, the 4-row matrix, 6-row lattice catalogue members) x unseen matrices x {col_major, transposed_view, reversed_rows_view}; \
          builder = 2 dataset matrices + every 9th 3-row pool matrix per p x {standard, col_major} x 4 unseen matrices (same shape, same shape sharing first and last row, other shape, empty): 37 linear forms per configuration, 12 whitener forms per method, re-use sequences for every configuration; \
+         wide = p in {4,5,6,7,9} x 4 training shapes x 8 record layouts (standard, col_major, transposed_view, reversed_rows_view, reversed_cols_view, front_rows_sliced, front_cols_sliced, front_both_sliced) (3 unseen matrices, full row-wise check); dataset:core = 7 feature counts x {full-rank, one-row} x 8 target layouts x 11 weight specs (none; ramp in 3 layouts; all ones / all zeros / mixed with ones; via with_weights or the public field) x owned/view x 2 constructors x 4 record layouts; \
          extreme = every 2x2, 1x3, 3x1 matrix over 9 extreme-magnitude letters per float type (norm scalers, max-abs, min-max only); long = 1025 and 4097 rows x 2 columns, standard and column-major (row-wise check on 9 fixed rows); errors = empty training data for p in 0..3, wrong width 1..4. Every family in f64 and f32 and through every configuration: \
          standard / no-mean / no-std / neither, min-max (0,1), (-1,1), (2,5), (3,3), flipped (5,2), max-abs, norm l1 / l2 / max, whitening PCA / ZCA / Cholesky. \
          One evaluation = one (training matrix [, unseen matrix], float type, configuration) run through all its oracles. Non-trivial: linear scalers = training matrix with >= 2 distinct rows and a non-constant column \
@@ -245,6 +271,7 @@ fn main() {
     ctx.assume("memory layout: one fitted object applied to the same logical matrix in standard layout and in another layout must give bit-identical values (<scaler>.layout_dependence); accessors of a fit on another layout are only tallied (ndarray sums a lane in a stride-dependent order)");
     ctx.assume("extreme magnitudes: non-finite output for finite input is always a violation; reference l2 norm is computed on the max-scaled row; l2 rows whose sum of squares (in the subject's float type) is below MIN_POSITIVE/eps get the extra tolerance p*min_subnormal/sum and are indeterminate when that exceeds 1e-2; rows whose squares underflow to 0 / overflow to inf and come back unchanged / all-zero get the two narrow norm_scaler.l2.squares_* signatures; tolerances of the affine-map and x/norm checks carry an absolute floor of a few smallest subnormals");
     ctx.assume("builder family: all forms denote the same logical parameters, so params (PartialEq), LinearScaler::method(), fit accessors and transforms must be bit-identical to the canonical constructor's (<thing>.params.builder_order_dependence / .constructor_dependence); re-use: <thing>.params.state_leak_between_fits, <thing>.state_leak_between_calls; the subject has no in-place / caller-buffer entry points (transform consumes its argument), so there is no stale-buffer dimension");
+    ctx.assume("dataset pass-through is judged against the logical values the dataset was built from (never against what the dataset itself reports before the transform): targets via as_targets() (logical equality incl. shape), weights() bit for bit, names exactly; a panic of a dataset helper or accessor on these in-domain forms is a violation (dataset.construction_panic / *.weights_accessor_panics)");
     ctx.assume("accumulation length: the cond-scaled tolerances of standard scaling and whitening are multiplied by max(1, n/8)");
     ctx.assume("linfa-preprocessing is built as the repository configures it: pure-Rust linfa-linalg, no BLAS feature");
     ctx.assume("whiteners are fitted only on full-rank training data (and on empty data, which must be an error): nothing is stated for rank-deficient data, and Whitener::zca().fit on a single row with >= 3 columns does not terminate (NaN covariance fed to linfa-linalg's uncapped SVD loop); a watchdog turns any job running > 150 s into a MACHINERY-ERROR naming the case");
@@ -323,6 +350,11 @@ fn main() {
                         feature_names: opt[2] == 1,
                         target_names: opt[3] == 1,
                         view: opt[4] == 1,
+                        target_layout: standard_layout(),
+                        weight_layout: standard_layout(),
+                        ctor: ctor_new(),
+                        weight_values: weights_ramp(),
+                        weight_set: weights_setter(),
                     };
                     let g: &[&str] = if well { &["linear", "norm", "whiten"] } else { &["linear", "norm"] };
                     jobs.push(Job::One(Case {
@@ -414,6 +446,78 @@ fn main() {
             }
         }
     }
+    // ---- wide family: feature counts 4, 5, 6, 7, 9 (and the one-row / two-row shapes) through every layout
+    let mut wide_cases = 0u64;
+    for p in [4usize, 5, 6, 7, 9] {
+        let trains = vec![wide(p + 3, p, 0), wide(4, p, 1), wide(1, p, 0), wide(2, p, 2)];
+        let tests = vec![wide(3, p, 3), wide(1, p, 4), wide(4, p, 1)];
+        for a in &trains {
+            for lay in std::iter::once("standard").chain(LAYOUTS.iter().cloned()) {
+                for f in FLOATS {
+                    let mut c = fit_case(&format!("wide:{}", lay), f, p, a.clone(), tests.clone(), true, &["linear", "norm", "whiten"]);
+                    c.layout = lay.to_string();
+                    jobs.push(Job::One(c));
+                    wide_cases += 1;
+                }
+            }
+        }
+    }
+    ctx.extra("wide_family_cases", json!(wide_cases));
+    // ---- dataset:core family: the dataset helpers of the core crate on every target / weight layout,
+    //      both constructors, owned and view records, one-row / one-feature shapes, feature counts up to 9
+    let mut core_cases = 0u64;
+    for p in [1usize, 2, 4, 5, 6, 7, 9] {
+        let mats: Vec<(Mat, bool)> = vec![(wide(p + 3, p, 0), true), (wide(1, p, 0), false)];
+        for (m, well) in &mats {
+            let g: &[&str] = if *well { &["linear", "norm", "whiten"] } else { &["linear", "norm"] };
+            for (targets, tl) in [
+                ("usize_1d", "standard"), ("usize_1d", "reversed_view"), ("usize_1d", "strided_view"), ("usize_1d", "reversed_owned"),
+                ("f64_2d", "standard"), ("f64_2d", "col_major"), ("f64_2d", "reversed_rows_view"), ("f64_2d", "transposed_view"),
+            ] {
+                for (wl, wvals, wset) in [
+                    ("none", "ramp", "with_weights"),
+                    ("standard", "ramp", "with_weights"),
+                    ("reversed_owned", "ramp", "with_weights"),
+                    ("strided_owned", "ramp", "with_weights"),
+                    ("standard", "ramp", "field"),
+                    ("standard", "all_ones", "with_weights"),
+                    ("standard", "all_ones", "field"),
+                    ("reversed_owned", "all_ones", "with_weights"),
+                    ("standard", "all_zeros", "with_weights"),
+                    ("standard", "mixed", "with_weights"),
+                    ("standard", "mixed", "field"),
+                ] {
+                    for view in [false, true] {
+                        for ctor in ["new", "from_tuple"] {
+                            for lay in ["standard", "col_major", "reversed_cols_view", "front_both_sliced"] {
+                                for f in FLOATS {
+                                    let ds = DsOpt {
+                                        targets: targets.into(),
+                                        weights: wl != "none",
+                                        feature_names: true,
+                                        target_names: true,
+                                        view,
+                                        target_layout: tl.into(),
+                                        weight_layout: if wl == "none" { standard_layout() } else { wl.into() },
+                                        ctor: ctor.into(),
+                                        weight_values: wvals.into(),
+                                        weight_set: wset.into(),
+                                    };
+                                    let mut c = fit_case("dataset:core", f, p, m.clone(), vec![], false, g);
+                                    c.kind = "dataset".into();
+                                    c.layout = lay.into();
+                                    c.ds = Some(ds);
+                                    jobs.push(Job::One(c));
+                                    core_cases += 1;
+                                }
+                            }
+                        }
+                    }
+                }
+            }
+        }
+    }
+    ctx.extra("dataset_core_family_cases", json!(core_cases));
     // ---- builder family: constructor forms / setter histories, re-use of params and fitted objects
     let mut builder_cases = 0u64;
     for p in 1..=3usize {
